@@ -183,9 +183,8 @@ def weave(src, only_targets=None):
             if len(hits) != 1:
                 raise Undecided("lost anchor: %r in %s matched %d times" % (inj["anchor"], inj["file"], len(hits)))
             i = hits[0]
-            # skip upwards over existing attributes / doc comments so we sit above them
             indent = re.match(r"\s*", lines[i]).group(0)
-            lines[i:i] = [indent + l for l in inj["insert"]]
+            lines[i:i] = [indent + l for l in inj["insert"]]  # inserted ABOVE the anchored line
             open(path, "w").write("\n".join(lines))
             record["injected"].append({"file": inj["file"], "anchor": inj["anchor"], "lines": inj["insert"]})
     # 2. appended modules
